@@ -224,18 +224,50 @@ def run_case(prop, tier, seed, i):
         ths = [threading.Thread(target=worker, args=(t,)) for t in range(nthreads)]
         for t in ths:
             t.start()
+        live = list(objs)
+
+        def depose_leader():
+            """Leader change while calls are in flight / after they were answered: the leader process goes away and
+            the two others elect a new one (only if the callers' node is not the leader itself)."""
+            ls = [o for o in live if o._isLeader()]
+            if len(ls) != 1 or ls[0] is target or len(live) < 3:
+                return False
+            L = ls[0]
+            live.remove(L)
+            try:
+                L.destroy()
+            except Exception:
+                pass
+            tl = time.time()
+            while time.time() - tl < 6:
+                if any(o._isLeader() for o in live):
+                    res['sit']['leader_changed_under_callers'] = res['sit'].get('leader_changed_under_callers', 0) + 1
+                    return True
+                time.sleep(0.02)
+            return False
+        lc = r.choice(['none', 'mid', 'after', 'after']) if mode == 'three' and not flood else 'none'
+        if lc == 'mid':
+            time.sleep(r.choice([0.02, 0.1, 0.3]))
+            depose_leader()
         for t in ths:
             t.join(120)
         if any(t.is_alive() for t in ths):
             res['inconclusive'] = 'caller threads did not finish (watchdog)'
         # let everything commit and apply everywhere
-        tq = time.time()
-        while time.time() - tq < 6:
-            idx = [o.raftLastApplied for o in objs]
-            cm = [o.raftCommitIndex for o in objs]
-            if len(set(idx)) == 1 and idx == cm and time.time() - tq > 0.5:
-                break
-            time.sleep(0.05)
+        def settle():
+            tq = time.time()
+            while time.time() - tq < 6:
+                idx = [o.raftLastApplied for o in live]
+                cm = [o.raftCommitIndex for o in live]
+                if len(set(idx)) == 1 and idx == cm and time.time() - tq > 0.5:
+                    break
+                time.sleep(0.05)
+        settle()
+        if lc == 'after' and not any(t.is_alive() for t in ths):
+            # every call has been answered: a later leader change must not make any callback fire again
+            if depose_leader():
+                time.sleep(0.3)
+                settle()
         y.stop()
         # ---- oracle ---------------------------------------------------------------------------
         pos_of = {}
